@@ -70,6 +70,16 @@ CHECKS = {
     technique="TLA+ specs PollGate.tla / XMutex.tla model-checked by TLC (exclusion, counters, no lost wake-up, no deadlock, liveness); every edge of the state graphs replayed on the current sources under a deterministic scheduler (binding R)",
     text="PollGate.tla models the BlockRebalanceOnPoll gate (one action per critical section under pollWaitMu, cond.Wait split, Broadcast, the guarded decrement, AllowRebalance, and the documented misuse as a named environment action); XMutex.tla models the channel-based RWMutex at the grain of single channel operations. TLC checks RevokeExcludesPolls, CountsExact, NoBorrow, NoLostWakeup, WriterAlone, NoPanic, NoDeadlock and liveness exhaustively; the state graphs are dumped and every edge (plus random walks) is executed on the poll-gate methods copied from consumer.go and on synctest_mutex.go with channel operations rewritten to controlled channels, comparing counters, parked/woken threads, channel contents, reader count and thread positions after each step, and checking exclusion on the real run; the plain Mutex is explored by direct enumeration of all schedules.",
     note="Bounds: 2 pollers x 2 rebalancers x 2 rounds; 2 writers, 2 readers, 1 try-locker, 1-2 rounds. The end-to-end BlockRebalanceOnPoll behaviour in a running group consumer is not part of this check."),
+ "C01": dict(
+    level="model_checking", design="5/C01, 4.4",
+    technique="TLA+ design spec Admit.tla model-checked by TLC (safety + liveness of admission/cancel/Flush/promise protocol); traces of the real kgo client under seeded fault scenarios validated event by event against ProdTrace.tla (binding V)",
+    text="Admit.tla (one action per critical section of p.mu, explicit Wait/Broadcast) is checked exhaustively incl. AllPromised and FlushReturns. The D-PROD driver runs hundreds to thousands of seeded scenarios on kgo+kfake inside a synctest bubble (virtual time, quiescence between steps): Produce/TryProduce/ProduceSync on existing, unknown and missing topics, context cancels, Flush, AbortBufferedRecords, purge, slow promises and partitioners, responses dropped after the broker handled the request, killed connections, retriable/fatal codes, stalls, and always Close (sometimes racing in-flight calls). Every call, return, hook, promise and every admission/finish under p.mu is recorded and TLC validates each trace against ProdTrace.tla: promise at most once and only for produced records, every record promised by quiescence (also after Close), gauges zero, no Flush or call left blocked.",
+    note="Schedules are those the Go runtime produces for each scenario (virtual time makes them deterministic per seed); kfake stands in for Kafka; a driver that deadlocks is reported as a hang of the last scenario."),
+ "C03": dict(
+    level="model_checking", design="5/C03, 4.4",
+    technique="TLA+ design spec Admit.tla model-checked by TLC (all interleavings of blocked Produce, cancel, Flush, broadcasts: Bound, GaugeExact, FlushSound, FlushReturns) + real-client traces validated against ProdTrace.tla (binding V)",
+    text="The admission protocol is checked exhaustively at design level for 3 records (2 cancellable), MaxRecs=1, one Flush, incl. the liveness properties that fail without the post-cancel broadcast. On the real client, verif hooks inside p.mu log bufferedRecords/blocked at admit, block, unblock and finish; ProdTrace.tla keeps its own counters, requires every logged value to equal them, rejects an admission beyond MaxBufferedRecords/MaxBufferedBytes, a block while there is room, ErrMaxBuffered for an accepted record, and a nil Flush return before every record whose Produce had returned (and was accepted) before Flush began was promised; at quiescence nothing may stay blocked.",
+    note="Gate-replay of every TLC interleaving on the real client (DESIGN.md 3.4-2) is not built; the real-code binding is trace validation over seeded scenarios. Pre-buffer failures are outside the Flush clause (DESIGN.md Appendix A)."),
 }
 
 NOT_APPLICABLE = {
